@@ -973,7 +973,14 @@ def listener_fails_after_send_case(run, rng, mode, idx):
             for m in msgs:
                 p = serverbound.play.ChatPacket()
                 p.message = m
-                conn.write_packet(p)
+                try:
+                    conn.write_packet(p)
+                except ValueError:
+                    # (a tree that writes at once runs the listener here, in
+                    # the caller's thread: what a program then does is up to
+                    # it - this one says goodbye as its handler would)
+                    run.count('listener_failure_reached_the_caller')
+                    conn.disconnect()
         if not pc.wait_idle(conn, 15.0):
             return 'watchdog: threads alive ' + pc.dump_threads()[-600:]
         server.join(10.0)
